@@ -311,6 +311,30 @@ func isWG(cs ssa.CallInstruction, method string) bool {
 	return c != nil && isLibFunc(c, "sync", "(*WaitGroup)."+method)
 }
 
+// containsSync: t is, or has a field or element that is, one of package sync's stateful types (by value).
+func containsSync(t types.Type, depth int) bool {
+	if depth > 4 {
+		return false
+	}
+	if nt, ok := t.(*types.Named); ok && nt.Obj().Pkg() != nil && nt.Obj().Pkg().Path() == "sync" {
+		switch nt.Obj().Name() {
+		case "WaitGroup", "Mutex", "RWMutex", "Once", "Cond", "Pool", "Map":
+			return true
+		}
+	}
+	switch u := t.Underlying().(type) {
+	case *types.Struct:
+		for i := 0; i < u.NumFields(); i++ {
+			if containsSync(u.Field(i).Type(), depth+1) {
+				return true
+			}
+		}
+	case *types.Array:
+		return containsSync(u.Elem(), depth+1)
+	}
+	return false
+}
+
 func runDrv3(c *Ctx) {
 	p := c.P
 	prod, goStmt := producerFn(p)
@@ -361,6 +385,24 @@ func runDrv3(c *Ctx) {
 				c.Check(instrDominates(errStore, cs), "producer: error before close", cs.Pos(), "the channel is closed only after Rows.err was stored")
 			} else {
 				c.Pass("producer: error before close", cs.Pos(), "close is deferred, the store precedes it on every normal exit")
+			}
+		}
+	}
+	// one WaitGroup: Add, Done and Wait all operate on the Rows' own wg field — a copy (`wg := rows.wg`) counts on its own
+	for _, fn := range p.ModFuncs() {
+		for _, cs := range callsIn(fn) {
+			for _, m := range []string{"Add", "Done", "Wait"} {
+				if !isWG(cs, m) {
+					continue
+				}
+				recv := cs.Common().Args[0]
+				c.Check(rowsField(recv) == "wg", "wg identity: "+p.FnKey(fn)+" "+m, cs.Pos(), "wg.%s is called on the wg field of the Rows itself (receiver %s): Close waits for the producer only if both use the same counter", m, (&Termer{P: p}).Term(recv, emptyPS()))
+			}
+		}
+		// … and no value holding a sync primitive is copied
+		for _, in := range instrs(fn) {
+			if ld, ok := in.(*ssa.UnOp); ok && ld.Op == token.MUL && containsSync(ld.Type(), 0) {
+				c.Fail("sync value copied: "+p.FnKey(fn), ld.Pos(), "a value of type %s, which holds a sync primitive, is copied: the copy has its own state", types.TypeString(ld.Type(), shortQual))
 			}
 		}
 	}
@@ -641,8 +683,33 @@ func throughParam(p *Program, v ssa.Value) ssa.Value {
 func runDrv7(c *Ctx) {
 	p := c.P
 	qc := c.MustFunc("driver", "(*Statement).QueryContext")
-	ex := c.MustFunc("driver", "(*Statement).expandSelectColumns")
-	if qc == nil || ex == nil {
+	if qc == nil {
+		return
+	}
+	ex := p.Func("driver", "(*Statement).expandSelectColumns")
+	loopFn := ex
+	if ex == nil {
+		// the expansion may have become a plain function (fed with what it used to fetch itself): it is the driver
+		// function whose []string result QueryContext puts into Rows.columns; its loop is then read in QueryContext's
+		// context, with its parameters bound to what QueryContext passes
+		for _, in := range instrs(qc) {
+			s, ok := in.(*ssa.Store)
+			if !ok || rowsField(s.Addr) != "columns" {
+				continue
+			}
+			v := throughParam(p, s.Val)
+			call, _ := extractOf(v)
+			if call == nil {
+				call, _ = v.(*ssa.Call)
+			}
+			if call != nil && call.Call.StaticCallee() != nil && p.PkgShort(call.Call.StaticCallee()) == "driver" {
+				ex = call.Call.StaticCallee()
+				loopFn = qc
+			}
+		}
+	}
+	if ex == nil {
+		c.Undecided("anchor driver.(*Statement).expandSelectColumns", token.NoPos, "no function of package driver produces the column list that QueryContext records in Rows.columns")
 		return
 	}
 	prod, _ := producerFn(p)
@@ -667,6 +734,9 @@ func runDrv7(c *Ctx) {
 			return true
 		}
 		v = throughParam(p, v)
+		if v == ssa.Value(exCall) {
+			return true
+		}
 		call, idx := extractOf(v)
 		return call == exCall && idx == 0
 	}
@@ -696,9 +766,11 @@ func runDrv7(c *Ctx) {
 	}
 	// expandSelectColumns: * ⇒ append(cols, allCols...), else append(cols, c)
 	var colsCall *ssa.Call
-	for _, cs := range callsIn(ex) {
-		if callee := cs.Common().StaticCallee(); callee != nil && p.FnKey(callee) == "(*sqlittle.DB).Columns" {
-			colsCall, _ = cs.(*ssa.Call)
+	for _, f := range []*ssa.Function{ex, loopFn} {
+		for _, cs := range callsIn(f) {
+			if callee := cs.Common().StaticCallee(); callee != nil && p.FnKey(callee) == "(*sqlittle.DB).Columns" {
+				colsCall, _ = cs.(*ssa.Call)
+			}
 		}
 	}
 	if colsCall == nil {
@@ -707,65 +779,118 @@ func runDrv7(c *Ctx) {
 	}
 	t := &Termer{P: p}
 	starOK, otherOK, nStar, nOther := true, true, 0, 0
-	for _, b := range ex.Blocks {
-		iff, ok := b.Instrs[len(b.Instrs)-1].(*ssa.If)
-		if !ok {
+	// one generic iteration of the loop over the selected columns: on the paths where the element is "*" exactly one
+	// append, of Columns()'s result; on the others exactly one append, of the element itself
+	_, paths, okPaths := bodyPaths(p, loopFn, t)
+	if !okPaths {
+		c.Undecided("expand: loop", ex.Pos(), "expandSelectColumns is not a single loop over the selected columns")
+		return
+	}
+	for _, lp := range paths {
+		if lp.Stop == nil {
 			continue
 		}
-		bo, ok := iff.Cond.(*ssa.BinOp)
-		if !ok || bo.Op != token.EQL {
-			continue
-		}
-		s, ok := constString(bo.Y)
-		if !ok || s != "*" {
-			continue
-		}
-		elem := bo.X
-		// true edge: an append whose second argument is allCols; false edge: append of [elem]
-		for k, succ := range b.Succs {
-			for _, in := range succ.Instrs {
-				call, ok := in.(*ssa.Call)
-				if !ok {
-					continue
+		var elem ssa.Value
+		isStar, tested := false, false
+		for _, l := range lp.Lits {
+			bo, ok := l.Cond.(*ssa.BinOp)
+			if !ok || (bo.Op != token.EQL && bo.Op != token.NEQ) {
+				continue
+			}
+			for _, pair := range [][2]ssa.Value{{bo.X, bo.Y}, {bo.Y, bo.X}} {
+				if sc, ok := constString(pair[1]); ok && sc == "*" {
+					elem, tested = pair[0], true
+					isStar = (bo.Op == token.EQL) == l.Val
 				}
-				bi, ok := call.Call.Value.(*ssa.Builtin)
-				if !ok || bi.Name() != "append" {
-					continue
-				}
-				arg := call.Call.Args[1]
-				if k == 0 {
-					nStar++
-					cc, idx := extractOf(arg)
-					if cc != colsCall || idx != 0 {
-						starOK = false
-					}
-				} else {
-					nOther++
-					// arg is a slice of a fresh 1-element array holding elem
-					okElem := false
-					if sl, ok := arg.(*ssa.Slice); ok {
-						if al, ok := sl.X.(*ssa.Alloc); ok {
-							for _, r := range *al.Referrers() {
-								if ia, ok := r.(*ssa.IndexAddr); ok {
-									for _, rr := range *ia.Referrers() {
-										if st, ok := rr.(*ssa.Store); ok && st.Val == elem {
-											okElem = true
-										}
-									}
-								}
-							}
-						}
-					}
-					if !okElem {
-						otherOK = false
+			}
+		}
+		var appends []*ssa.Call
+		for _, b := range lp.PS.Path {
+			for _, in := range b.Instrs {
+				if call, ok := in.(*ssa.Call); ok {
+					if bi, ok := call.Call.Value.(*ssa.Builtin); ok && bi.Name() == "append" {
+						appends = append(appends, call)
 					}
 				}
 			}
 		}
+		if !tested {
+			// a path that does not look at the element at all must not add anything
+			if len(appends) > 0 {
+				starOK, otherOK = false, false
+			}
+			continue
+		}
+		if isStar {
+			nStar++
+			if len(appends) != 1 {
+				starOK = false
+				continue
+			}
+			cc, idx := extractOf(lp.PS.Resolve(appends[0].Call.Args[1]))
+			if cc != colsCall || idx != 0 {
+				starOK = false
+			}
+			continue
+		}
+		nOther++
+		if len(appends) != 1 {
+			otherOK = false
+			continue
+		}
+		// the argument is a slice of a fresh 1-element array holding elem
+		okElem := false
+		if sl, ok := appends[0].Call.Args[1].(*ssa.Slice); ok {
+			if al, ok := sl.X.(*ssa.Alloc); ok {
+				for _, r := range *al.Referrers() {
+					if ia, ok := r.(*ssa.IndexAddr); ok {
+						for _, rr := range *ia.Referrers() {
+							if st, ok := rr.(*ssa.Store); ok && st.Val == elem {
+								okElem = true
+							}
+						}
+					}
+				}
+			}
+		}
+		if !okElem {
+			otherOK = false
+		}
 	}
-	_ = t
-	c.Check(nStar == 1 && starOK, "expand: star", ex.Pos(), "`*` appends Columns()'s result in place")
-	c.Check(nOther == 1 && otherOK, "expand: named", ex.Pos(), "a named column is appended unchanged")
+	c.Check(nStar >= 1 && starOK, "expand: star", ex.Pos(), "`*` appends Columns()'s result in place")
+	// the list being built starts empty and owns its memory: appending into a slice of the parsed statement's own
+	// column list would overwrite the names the loop has yet to read
+	if hdr, _, okH := bodyPaths(p, loopFn, t); okH && hdr != nil {
+		body := loopBody(hdr)
+		nAcc, accOK, accWhy := 0, true, ""
+		for _, in := range hdr.Instrs {
+			ph, isPhi := in.(*ssa.Phi)
+			if !isPhi {
+				break
+			}
+			if sl, isSl := ph.Type().Underlying().(*types.Slice); !isSl || !types.Identical(sl.Elem(), types.Typ[types.String]) {
+				continue
+			}
+			nAcc++
+			for k, pb := range hdr.Preds {
+				if body[pb] {
+					continue
+				}
+				e := ph.Edges[k]
+				switch x := e.(type) {
+				case *ssa.Const:
+					if !x.IsNil() {
+						accOK, accWhy = false, "starts from "+x.String()
+					}
+				case *ssa.MakeSlice:
+				default:
+					accOK, accWhy = false, "starts from "+t.Term(e, emptyPS())
+				}
+			}
+		}
+		c.Check(nAcc >= 1 && accOK, "expand: fresh list", ex.Pos(), "the expanded list starts as nil or a fresh make(): it shares no memory with the statement's column list %s", accWhy)
+	}
+	c.Check(nOther >= 1 && otherOK, "expand: named", ex.Pos(), "a named column is appended unchanged")
 }
 
 // pagersNeverReturnRawEOF: no pager implementation returns the unwrapped error of a library read (which is io.EOF at
